@@ -298,46 +298,54 @@ pub fn lines_for_case_pub(engine: &str, i: u64, tag: &str, spec: &str) -> Vec<St
     lines_for_case(engine, i, tag, spec, &mut r)
 }
 
-/// Into one client field on a type T that has `__refetch` and two argument-free linked fields a, b of type
-/// T: `sfxA: a { __refetch  sfxAB: b { __refetch } }  sfxB: b { __refetch  sfxBA: a { __refetch } }` — refetch
-/// paths [a], [a, b], [b], [b, a]: one is a proper suffix of another that sorts before it.
-fn inject_suffix_paths(p: &mut Project) -> bool {
+/// Every object type T that has `__refetch` and a client field gets two schema fields `sfxa: T`, `sfxb: T`, and
+/// every client field on T additionally selects `sfxa { __refetch sfxb { __refetch } } sfxb { __refetch sfxa {
+/// __refetch } }` — refetch paths [sfxa], [sfxa, sfxb], [sfxb], [sfxb, sfxa]: [sfxb] is a proper suffix of
+/// [sfxa, sfxb], which sorts before it, and the selections at the two positions differ.
+fn inject_suffix_paths(p: &mut Project) -> usize {
     use hx_projgen::env::{Env, SelKind};
-    let mut found: Option<(usize, String, String)> = None;
+    let mut types: Vec<String> = Vec::new();
     {
         let env = Env::new(p);
-        for (k, (_, d)) in p.decls.iter().enumerate() {
+        for (_, d) in p.decls.iter() {
             let Decl::ClientField(f) = d else { continue };
+            if types.contains(&f.parent) {
+                continue;
+            }
             if env.lookup(&f.parent, "__refetch").map(|s| s.kind) != Some(SelKind::Refetch) {
                 continue;
             }
-            let Some(t) = p.schema.get(&f.parent) else { continue };
-            let selfs: Vec<String> = t
-                .fields()
-                .iter()
-                .filter(|fd| fd.ty.inner() == f.parent && fd.args.iter().all(|a| a.ty.is_nullable() || a.default.is_some()))
-                .map(|fd| fd.name.clone())
-                .collect();
-            if selfs.len() >= 2 {
-                let (mut a, mut b) = (selfs[0].clone(), selfs[1].clone());
-                if a > b {
-                    std::mem::swap(&mut a, &mut b);
-                }
-                found = Some((k, a, b));
-                break;
+            if matches!(p.schema.get(&f.parent).map(|t| &t.kind), Some(TypeKind::Object { .. })) {
+                types.push(f.parent.clone());
             }
         }
     }
-    let Some((k, a, b)) = found else { return false };
-    let al = |alias: &str, name: &str, kids: Vec<Selection>| {
-        Selection::Linked(SelHead { alias: Some(alias.to_string()), name: name.to_string(), args: vec![], directives: vec![] }, kids)
-    };
-    let rf = |alias: &str| Selection::Scalar(SelHead { alias: Some(alias.to_string()), name: "__refetch".to_string(), args: vec![], directives: vec![] });
-    if let Decl::ClientField(f) = &mut p.decls[k].1 {
-        f.selections.push(al("sfxA", &a, vec![rf("sfxR1"), al("sfxAB", &b, vec![rf("sfxR2")])]));
-        f.selections.push(al("sfxB", &b, vec![rf("sfxR3"), al("sfxBA", &a, vec![rf("sfxR4")])]));
+    for t in p.schema.types.iter_mut() {
+        if !types.contains(&t.name) {
+            continue;
+        }
+        let name = t.name.clone();
+        if let TypeKind::Object { fields, .. } = &mut t.kind {
+            for n in ["sfxa", "sfxb"] {
+                fields.push(FieldDef { name: n.to_string(), description: None, args: vec![], ty: TypeRef::Named(name.clone()) });
+            }
+        }
     }
-    true
+    let ln = |name: &str, kids: Vec<Selection>| {
+        Selection::Linked(SelHead { alias: None, name: name.to_string(), args: vec![], directives: vec![] }, kids)
+    };
+    let rf = || Selection::Scalar(SelHead { alias: None, name: "__refetch".to_string(), args: vec![], directives: vec![] });
+    let mut n = 0;
+    for (_, d) in p.decls.iter_mut() {
+        let Decl::ClientField(f) = d else { continue };
+        if !types.contains(&f.parent) {
+            continue;
+        }
+        f.selections.push(ln("sfxa", vec![rf(), ln("sfxb", vec![rf()])]));
+        f.selections.push(ln("sfxb", vec![rf(), ln("sfxa", vec![rf()])]));
+        n += 1;
+    }
+    n
 }
 
 fn gen_case(r: &mut Rng, i: u64) -> Vec<String> {
